@@ -3,8 +3,16 @@
 EXTENDS Pipeline
 \* Model checking instance: the stream of source s has the entries 1 .. StreamLen, a
 \* table reads them in order, and accepts the ones in Keyed.
-CONSTANTS StreamLen, Keyed, MaxCrashes
-VARIABLE crashes
+CONSTANTS
+  \* @type: Int;
+  StreamLen,
+  \* @type: Set(<<Str, Str, Int>>);
+  Keyed,
+  \* @type: Int;
+  MaxCrashes
+VARIABLE
+  \* @type: Int;
+  crashes
 mvars == <<pvars, crashes>>
 MCInit == PInit /\ crashes = 0
 MCNext ==
